@@ -12,9 +12,14 @@ import SctpVerif.Proofs.Sender.Core
 import SctpVerif.Proofs.Sender.Callback
 import SctpVerif.Proofs.Sender.Seq
 import SctpVerif.Proofs.Sender.Rtx
+import SctpVerif.Proofs.Sender.Adv
+import SctpVerif.Proofs.Sender.AdvMsg
+import SctpVerif.Proofs.Sender.Progress
+import SctpVerif.Proofs.Sender.Recover
 import SctpVerif.Proofs.Sender.Wire
 import SctpVerif.Proofs.Sender.MsgId
 /-! Helper lemmas about the L0 sender model `Model/Sender.lean` (used by `Props/C10.lean`, `Props/C15.lean`):
 `Arith` packet/chunk sizes · `Gather` the scan loops · `Window`/`Admit` admission of new DATA · `Frames` what the
 flag-only transitions leave alone · `WinRun` window invariants over runs · `Loss` loss response · `Books`/`Acct`/`Core`
-byte accounting · `Callback` low-threshold callback · `Seq` TSN contiguity, a validated SACK is applied completely. -/
+byte accounting · `Callback` low-threshold callback · `Seq` TSN contiguity, a validated SACK is applied completely · `Adv` partial reliability: abandonment, advanced peer
+ack point, FORWARD-TSN contents · `AdvMsg` who can be abandoned, which retransmission paths test `abandoned()` (`Props/C07.lean`) · `Progress` T3 marks all, lowest flagged chunk retransmitted, zero-window probe, cumulative SACK, the drain rounds · `Recover` recovery against a peer that keeps nothing beyond its cumulative point (`Props/C02.lean`). -/
